@@ -65,21 +65,16 @@ theorem look_del_other (k k' : Int) (m : AMap) (h : k' ≠ k) : look k' (del k m
 
 /-! ### the legal grammar `linked ev* synced ev* unlinked (relink ..)` and the reference fold -/
 
-def Msg.isClear : Msg → Bool
-  | .clear => true | _ => false
-
 def Msg.isBasic : Msg → Bool
   | .update _ _ => true | .remove _ => true | .clear => true | _ => false
 
 /-- restrictions under which a statement is claimed -/
 structure Restr where
-  /-- no `clear` while callbacks are suppressed (linked, not synced, `events_when_not_synced = false`): F5 -/
-  noSuppClear : Bool
   /-- only update / remove / clear events -/
   noTakeDrop : Bool
 
 def evOk (R : Restr) (c : Cfg) (p : Phase) (e : Msg) : Bool :=
-  (!R.noSuppClear || c.ews || p = .S || !e.isClear) && (!R.noTakeDrop || e.isBasic)
+  !R.noTakeDrop || e.isBasic
 
 /-- one step of the grammar; `none` = the notification is not legal here -/
 def phaseStep (R : Restr) (c : Cfg) (p : Phase) (n : Note) : Option Phase :=
@@ -137,7 +132,7 @@ def CSt.replica : CSt → Option AMap
 
 /-! ### events -/
 
-theorem cEvent_fst (m : AMap) (e : Msg) (d : Bool) (h : d = true ∨ e.isClear = false) :
+theorem cEvent_fst_basic (m : AMap) (e : Msg) (d : Bool) (h : e.isBasic = true) :
     (cEvent m e d).1 = applyMsg m e := by
   cases e with
   | update k v => rfl
@@ -146,12 +141,9 @@ theorem cEvent_fst (m : AMap) (e : Msg) (d : Bool) (h : d = true ∨ e.isClear =
     cases hl : look k m with
     | none => simp [del_of_look_none k m hl]
     | some v => rfl
-  | clear =>
-    cases h with
-    | inl h => subst h; rfl
-    | inr h => simp [Msg.isClear] at h
-  | take n => rfl
-  | drop n => rfl
+  | clear => rfl
+  | take n => simp [Msg.isBasic] at h
+  | drop n => simp [Msg.isBasic] at h
 
 theorem hEvent_fst_basic (m : AMap) (e : Msg) (d : Bool) (h : e.isBasic = true) :
     (hEvent m e d).1 = applyMsg m e := by
@@ -166,17 +158,14 @@ theorem hEvent_fst_basic (m : AMap) (e : Msg) (d : Bool) (h : e.isBasic = true) 
   | take n => simp [Msg.isBasic] at h
   | drop n => simp [Msg.isBasic] at h
 
-theorem cEvent_snd_basic (m : AMap) (e : Msg) (d : Bool) (h : e.isBasic = true) (hc : d = true ∨ e.isClear = false) :
+theorem cEvent_snd_basic (m : AMap) (e : Msg) (d : Bool) (h : e.isBasic = true) :
     (cEvent m e d).2 = specCbs (some m) d (.ev e) := by
   cases e with
   | update k v => rfl
   | remove k =>
     simp only [cEvent, specCbs, Option.getD]
     cases hl : look k m <;> rfl
-  | clear =>
-    cases hc with
-    | inl hc => subst hc; rfl
-    | inr hc => simp [Msg.isClear] at hc
+  | clear => rfl
   | take n => simp [Msg.isBasic] at h
   | drop n => simp [Msg.isBasic] at h
 
@@ -212,23 +201,12 @@ def RelH (p : Phase) (sp : Option AMap) (s : MHosted) : Prop :=
 /-- callbacks enabled in phase `p` -/
 def dispIn (c : Cfg) (p : Phase) : Bool := p = .S || c.ews
 
-theorem evOk_clear {R : Restr} {c : Cfg} {p : Phase} {e : Msg} (hR : R.noSuppClear = true)
-    (h : evOk R c p e = true) : dispIn c p = true ∨ e.isClear = false := by
-  simp only [evOk, hR, Bool.not_true, Bool.false_or, Bool.and_eq_true, Bool.or_eq_true, decide_eq_true_eq,
-    Bool.not_eq_true'] at h
-  simp only [dispIn, Bool.or_eq_true, decide_eq_true_eq]
-  rcases h.1 with (h | h) | h
-  · exact Or.inl (Or.inr h)
-  · exact Or.inl (Or.inl h)
-  · exact Or.inr h
-
 theorem evOk_basic {R : Restr} {c : Cfg} {p : Phase} {e : Msg} (hR : R.noTakeDrop = true)
     (h : evOk R c p e = true) : e.isBasic = true := by
-  simp only [evOk, hR, Bool.not_true, Bool.false_or, Bool.and_eq_true] at h
-  exact h.2
+  simpa [evOk, hR] using h
 
 /-- one legal notification keeps the client on the fold -/
-theorem relC_step {R : Restr} (hR : R.noSuppClear = true) (c : Cfg) {p p' : Phase} {sp : Option AMap} {s : MClient}
+theorem relC_step {R : Restr} (hR : R.noTakeDrop = true) (c : Cfg) {p p' : Phase} {sp : Option AMap} {s : MClient}
     {n : Note} (hrel : RelC p sp s) (hp : phaseStep R c p n = some p') :
     RelC p' (specStep sp n) (s.step c (.note n)).1 := by
   cases p with
@@ -261,10 +239,9 @@ theorem relC_step {R : Restr} (hR : R.noSuppClear = true) (c : Cfg) {p p' : Phas
       by_cases hok : evOk R c .L e = true
       · simp only [hok, ↓reduceIte, Option.some.injEq] at hp
         subst hp
-        have hd := evOk_clear hR hok
-        have hd' : c.ews = true ∨ e.isClear = false := by simpa [dispIn] using hd
+        have hb := evOk_basic hR hok
         refine ⟨applyMsg m e, ?_, rfl⟩
-        simp [MClient.step, cRead, cEvent_fst m e c.ews hd']
+        simp [MClient.step, cRead, cEvent_fst_basic m e c.ews hb]
       · simp [hok] at hp
   | S =>
     obtain ⟨m, hs, hsp⟩ := hrel
@@ -281,8 +258,9 @@ theorem relC_step {R : Restr} (hR : R.noSuppClear = true) (c : Cfg) {p p' : Phas
       by_cases hok : evOk R c .S e = true
       · simp only [hok, ↓reduceIte, Option.some.injEq] at hp
         subst hp
+        have hb := evOk_basic hR hok
         refine ⟨applyMsg m e, ?_, rfl⟩
-        simp [MClient.step, cRead, cEvent_fst m e true (Or.inl rfl)]
+        simp [MClient.step, cRead, cEvent_fst_basic m e true hb]
       · simp [hok] at hp
   | E => cases n <;> simp [phaseStep] at hp
 
@@ -344,7 +322,7 @@ theorem relH_step {R : Restr} (hR : R.noTakeDrop = true) (c : Cfg) {p p' : Phase
   | E => cases n <;> simp [phaseStep] at hp
 
 /-- callbacks of the client for one legal notification are the ones the fold implies -/
-theorem cbsC_step {R : Restr} (hR : R.noSuppClear = true) (hT : R.noTakeDrop = true) (c : Cfg) {p p' : Phase}
+theorem cbsC_step {R : Restr} (hT : R.noTakeDrop = true) (c : Cfg) {p p' : Phase}
     {sp : Option AMap} {s : MClient} {n : Note} (hrel : RelC p sp s) (hp : phaseStep R c p n = some p') :
     (s.step c (.note n)).2 = specCbs sp (dispIn c p) n := by
   cases p with
@@ -363,10 +341,8 @@ theorem cbsC_step {R : Restr} (hR : R.noSuppClear = true) (hT : R.noTakeDrop = t
     | ev e =>
       simp only [phaseStep] at hp
       by_cases hok : evOk R c .L e = true
-      · have hd := evOk_clear hR hok
-        have hd' : c.ews = true ∨ e.isClear = false := by simpa [dispIn] using hd
-        have hb := evOk_basic hT hok
-        simp [MClient.step, cRead, cEvent_snd_basic m e c.ews hb hd', dispIn]
+      · have hb := evOk_basic hT hok
+        simp [MClient.step, cRead, cEvent_snd_basic m e c.ews hb, dispIn]
       · simp [hok] at hp
   | S =>
     obtain ⟨m, hs, hsp⟩ := hrel
@@ -379,7 +355,7 @@ theorem cbsC_step {R : Restr} (hR : R.noSuppClear = true) (hT : R.noTakeDrop = t
       simp only [phaseStep] at hp
       by_cases hok : evOk R c .S e = true
       · have hb := evOk_basic hT hok
-        simp [MClient.step, cRead, cEvent_snd_basic m e true hb (Or.inl rfl), dispIn]
+        simp [MClient.step, cRead, cEvent_snd_basic m e true hb, dispIn]
       · simp [hok] at hp
   | E => cases n <;> simp [phaseStep] at hp
 
@@ -426,7 +402,7 @@ theorem cbsH_step {R : Restr} (hT : R.noTakeDrop = true) (c : Cfg) {p p' : Phase
 theorem specRun_cons (sp : Option AMap) (n : Note) (r : List Note) :
     specRun sp (n :: r) = specRun (specStep sp n) r := rfl
 
-theorem relC_run {R : Restr} (hR : R.noSuppClear = true) (c : Cfg) (ns : List Note) {p p' : Phase}
+theorem relC_run {R : Restr} (hR : R.noTakeDrop = true) (c : Cfg) (ns : List Note) {p p' : Phase}
     {sp : Option AMap} {s : MClient} (hrel : RelC p sp s) (hp : phaseRun R c p ns = some p') :
     RelC p' (specRun sp ns) (MClient.run c s (notes ns)).1 := by
   induction ns generalizing p sp s with
@@ -467,7 +443,7 @@ def specTrace (R : Restr) (c : Cfg) : Phase → Option AMap → List Note → Li
        | some p' => specTrace R c p' (specStep sp n) r
        | none => [])
 
-theorem traceC_run {R : Restr} (hR : R.noSuppClear = true) (hT : R.noTakeDrop = true) (c : Cfg) (ns : List Note)
+theorem traceC_run {R : Restr} (hT : R.noTakeDrop = true) (c : Cfg) (ns : List Note)
     {p p' : Phase} {sp : Option AMap} {s : MClient} (hrel : RelC p sp s) (hp : phaseRun R c p ns = some p') :
     (MClient.run c s (notes ns)).2 = specTrace R c p sp ns := by
   induction ns generalizing p sp s with
@@ -479,9 +455,9 @@ theorem traceC_run {R : Restr} (hR : R.noSuppClear = true) (hT : R.noTakeDrop = 
     | some q =>
       simp only [hq] at hp
       simp only [notes, List.map_cons, MClient.run, specTrace, hq]
-      rw [cbsC_step hR hT c hrel hq]
+      rw [cbsC_step hT c hrel hq]
       congr 1
-      exact ih (relC_step hR c hrel hq) hp
+      exact ih (relC_step hT c hrel hq) hp
 
 theorem traceH_run {R : Restr} (hT : R.noTakeDrop = true) (c : Cfg) (ns : List Note)
     {p p' : Phase} {sp : Option AMap} {s : MHosted} (hrel : RelH p sp s) (hp : phaseRun R c p ns = some p') :
@@ -966,6 +942,123 @@ theorem relH_run_all {R : Restr} (c : Cfg) (ns : List Note) {p p' : Phase}
     | some q =>
       simp only [hq] at hp
       have := relH_step_all c hrel hso hq
+      exact ih this.1 this.2 hp
+
+/-- the client (repaired code: keys collected, removed one at a time) computes the fold for all five messages -/
+theorem cEvent_fst_sorted (m : AMap) (e : Msg) (d : Bool) (h : SortedK m) : (cEvent m e d).1 = applyMsg m e := by
+  cases e with
+  | update k v => rfl
+  | remove k =>
+    simp only [cEvent, applyMsg]
+    cases hl : look k m with
+    | none => simp [del_of_look_none k m hl]
+    | some v => rfl
+  | clear => rfl
+  | take n =>
+    simp only [cEvent, applyMsg]
+    rw [removeSeq_fst, ← keys_drop]
+    exact filter_drop_keys m n h
+  | drop n =>
+    simp only [cEvent, applyMsg]
+    rw [removeSeq_fst, ← keys_take]
+    exact filter_take_keys m n h
+
+/-- client and hosted event handling coincide (state and callbacks) except for `drop n` with `n ≥ len`, where the
+hosted downlink calls `on_clear` once and the client `on_remove` per key -/
+theorem cEvent_eq_hEvent (m : AMap) (e : Msg) (d : Bool)
+    (h : match e with | .drop n => n < m.length | _ => True) : cEvent m e d = hEvent m e d := by
+  cases e with
+  | update k v => rfl
+  | remove k => rfl
+  | clear => rfl
+  | take n =>
+    simp only [cEvent, hEvent]
+    by_cases hn : n < m.length
+    · simp [hn]
+    · have : (keys m).drop n = [] := by
+        apply List.drop_of_length_le
+        simp only [keys, List.length_map]; omega
+      simp [hn, this, removeSeq]
+  | drop n =>
+    have hn : ¬ m.length ≤ n := by simp only at h; omega
+    simp [cEvent, hEvent, hn]
+
+/-- client step for all five messages, carrying the sortedness invariant -/
+theorem relC_step_all {R : Restr} (c : Cfg) {p p' : Phase} {sp : Option AMap} {s : MClient}
+    {n : Note} (hrel : RelC p sp s) (hso : SortedK (sp.getD [])) (hp : phaseStep R c p n = some p') :
+    RelC p' (specStep sp n) (s.step c (.note n)).1 ∧ SortedK ((specStep sp n).getD []) := by
+  have hnil : SortedK ([] : AMap) := by simp [SortedK, keys]
+  cases p with
+  | U =>
+    cases n with
+    | linked =>
+      simp only [phaseStep, Option.some.injEq] at hp
+      subst hp
+      obtain ⟨hs, hsp⟩ := hrel
+      subst hs hsp
+      exact ⟨⟨[], rfl, rfl⟩, hnil⟩
+    | synced => simp [phaseStep] at hp
+    | unlinked => simp [phaseStep] at hp
+    | ev e => simp [phaseStep] at hp
+  | L =>
+    obtain ⟨m, hs, hsp⟩ := hrel
+    subst hs hsp
+    cases n with
+    | linked => simp [phaseStep] at hp
+    | synced =>
+      simp only [phaseStep, Option.some.injEq] at hp
+      subst hp
+      exact ⟨⟨m, rfl, rfl⟩, hso⟩
+    | unlinked =>
+      simp only [phaseStep, Option.some.injEq] at hp
+      subst hp
+      cases ht : c.tou <;> simp [RelC, MClient.step, cRead, ht, specStep, hnil]
+    | ev e =>
+      simp only [phaseStep] at hp
+      by_cases hok : evOk R c .L e = true
+      · simp only [hok, ↓reduceIte, Option.some.injEq] at hp
+        subst hp
+        have hm : SortedK m := hso
+        refine ⟨⟨applyMsg m e, ?_, rfl⟩, applyMsg_sorted m e hm⟩
+        simp [MClient.step, cRead, cEvent_fst_sorted m e c.ews hm]
+      · simp [hok] at hp
+  | S =>
+    obtain ⟨m, hs, hsp⟩ := hrel
+    subst hs hsp
+    cases n with
+    | linked => simp [phaseStep] at hp
+    | synced => simp [phaseStep] at hp
+    | unlinked =>
+      simp only [phaseStep, Option.some.injEq] at hp
+      subst hp
+      cases ht : c.tou <;> simp [RelC, MClient.step, cRead, ht, specStep, hnil]
+    | ev e =>
+      simp only [phaseStep] at hp
+      by_cases hok : evOk R c .S e = true
+      · simp only [hok, ↓reduceIte, Option.some.injEq] at hp
+        subst hp
+        have hm : SortedK m := hso
+        refine ⟨⟨applyMsg m e, ?_, rfl⟩, applyMsg_sorted m e hm⟩
+        simp [MClient.step, cRead, cEvent_fst_sorted m e true hm]
+      · simp [hok] at hp
+  | E => cases n <;> simp [phaseStep] at hp
+
+theorem relC_run_all {R : Restr} (c : Cfg) (ns : List Note) {p p' : Phase}
+    {sp : Option AMap} {s : MClient} (hrel : RelC p sp s) (hso : SortedK (sp.getD []))
+    (hp : phaseRun R c p ns = some p') :
+    RelC p' (specRun sp ns) (MClient.run c s (notes ns)).1 := by
+  induction ns generalizing p sp s with
+  | nil =>
+    simp only [phaseRun, Option.some.injEq] at hp
+    subst hp
+    exact hrel
+  | cons n r ih =>
+    simp only [phaseRun] at hp
+    cases hq : phaseStep R c p n with
+    | none => simp [hq] at hp
+    | some q =>
+      simp only [hq] at hp
+      have := relC_step_all c hrel hso hq
       exact ih this.1 this.2 hp
 
 /-! ### hosted `take` / `drop` callbacks: one `on_remove` per removed entry, in key order, each with the map after it -/
